@@ -110,6 +110,8 @@ pub struct RunResult {
     pub stats: Stats,
     pub participants: usize,
     pub pipes: usize,
+    pub opens: u64,
+    pub stdin_reads: u64,
     pub orphans_blocked: bool,
     pub final_resources: Option<Resources>,
     pub snapshot: Option<serde_json::Value>,
@@ -420,6 +422,8 @@ pub fn run_with(spec: &RunSpec, inspect: Option<Inspect>) -> RunResult {
         stats: w.stats,
         participants: w.parts.len(),
         pipes: w.pipes.len(),
+        opens: w.opens,
+        stdin_reads: w.stdin_reads,
         orphans_blocked,
         final_resources: out.as_ref().and_then(|o| o.res.clone()),
         snapshot: out.and_then(|o| o.snap),
@@ -444,6 +448,8 @@ fn harness_fail(msg: String) -> RunResult {
         stats: Stats::default(),
         participants: 0,
         pipes: 0,
+        opens: 0,
+        stdin_reads: 0,
         orphans_blocked: false,
         final_resources: None,
         snapshot: None,
